@@ -1386,7 +1386,15 @@ func ruleC17BracketEscapeScope(c *Ctx) {
 			return
 		}
 		inBackslashArm, scoped := false, false
+		dependsOnNext := ""
 		for _, fc := range relFacts(factsAt(b)) {
+			if _, xC := fc.x.(*ssa.Const); !xC {
+				if _, yC := fc.y.(*ssa.Const); !yC && (fc.r == relEQ || fc.r == relNE) {
+					// a comparison of two run-time values in front of the skip (the byte after the backslash against the
+					// open quote, say): whether the backslash escapes then depends on what follows it
+					dependsOnNext = NewTB().Of(fc.x).String() + " vs " + NewTB().Of(fc.y).String()
+				}
+			}
 			k, isK := constIntOf(fc.y)
 			if !isK {
 				continue
@@ -1402,6 +1410,9 @@ func ruleC17BracketEscapeScope(c *Ctx) {
 			return
 		}
 		n++
+		if dependsOnNext != "" {
+			bad = "inside a string literal the byte after a backslash is skipped only under a condition on run-time values (" + dependsOnNext + ") at " + c.P.Pos(bo.Pos()) + ": the tokenizer pairs EVERY backslash with the byte that follows, so `'C:\\\\'` (an escaped backslash in front of the closing quote) leaves the locator inside the string and the brackets of later literals are rewritten"
+		}
 		if !scoped {
 			bad = "the byte after a backslash is skipped at " + c.P.Pos(bo.Pos()) + " whatever quote is open: inside a backtick identifier the closing backtick can be skipped (`x\\`) and the brackets that follow are not rewritten"
 		}
@@ -1606,3 +1617,11 @@ func ruleC07RegistryFresh(c *Ctx) {
 
 // `x IN (SELECT …)` and comparisons with a scalar subquery read the subquery's value: it must be the nested result itself (C01)
 func init() { register("C01", ruleC07ScopeArg) }
+
+// with the IdomaticArrays option the sanitised text is rewritten by the bracket locator before it is parsed: its quote
+// and escape handling is part of the sanitizer round trip (C16) as well
+func init() { register("C16", ruleC17BracketGuard, ruleC17BracketEscapeScope, ruleC17QuoteCloseMatches) }
+
+
+// the registry copy is also what keeps the caller's document (C11) and the wrapped root (C17) free of CTE entries
+func init() { register("C11", ruleC07RegistryFresh); register("C17", ruleC07RegistryFresh) }
